@@ -2,7 +2,7 @@
 C08 — future_sync runs in its slot and cancels cleanly when dropped.
 -/
 import DesyncModel.Spec
-import DesyncModel.Tables
+import DesyncModel.Tables.Claim
 import DesyncModel.FactSyncFuture
 import DesyncModel.Lemmas
 import DesyncModel.Setters
